@@ -6,16 +6,20 @@
 #![allow(unused, dead_code, unsafe_code, static_mut_refs)]
 use bytes::Bytes;
 use digest::{FixedOutput, HashMarker, OutputSizeUser, Update};
-use generic_array::{typenum::U64, GenericArray};
+use generic_array::{typenum::U32, GenericArray};
 
 use super::*;
 use crate::__verif_common::*;
 use crate::crypto::hash::KnownDigest;
 
-/// recording digest: output = len || over || first 48 bytes (3 words), zero padded to 64
+/// recording digest: output (32 octets) = the two 16-octet words of the packed transcript; its length and
+/// overflow flag go through statics (a 64-octet GenericArray is default-initialised by a 64-iteration loop,
+/// which would force unwind 65 on the whole harness)
+pub static mut REC_LEN: usize = 0;
+pub static mut REC_OVER: bool = false;
 #[derive(Default, Clone)]
 pub struct RecD {
-    p: Pack<3>,
+    p: Pack<2>,
 }
 impl Update for RecD {
     fn update(&mut self, data: &[u8]) {
@@ -23,15 +27,16 @@ impl Update for RecD {
     }
 }
 impl OutputSizeUser for RecD {
-    type OutputSize = U64;
+    type OutputSize = U32;
 }
 impl FixedOutput for RecD {
-    fn finalize_into(self, out: &mut GenericArray<u8, U64>) {
-        out[0] = self.p.len as u8;
-        out[1] = self.p.over as u8;
-        out[2..18].copy_from_slice(&self.p.w[0].to_be_bytes());
-        out[18..34].copy_from_slice(&self.p.w[1].to_be_bytes());
-        out[34..50].copy_from_slice(&self.p.w[2].to_be_bytes());
+    fn finalize_into(self, out: &mut GenericArray<u8, U32>) {
+        unsafe {
+            REC_LEN = self.p.len;
+            REC_OVER = self.p.over;
+        }
+        out[0..16].copy_from_slice(&self.p.w[0].to_be_bytes());
+        out[16..32].copy_from_slice(&self.p.w[1].to_be_bytes());
     }
 }
 impl HashMarker for RecD {}
@@ -39,35 +44,13 @@ impl KnownDigest for RecD {
     const HASH_ALGORITHM: HashAlgorithm = HashAlgorithm::Sha256;
 }
 
-fn ref_out(exp: &Pack<3>) -> [u8; 64] {
-    let mut out = [0u8; 64];
-    out[0] = exp.len as u8;
-    out[1] = exp.over as u8;
-    out[2..18].copy_from_slice(&exp.w[0].to_be_bytes());
-    out[18..34].copy_from_slice(&exp.w[1].to_be_bytes());
-    out[34..50].copy_from_slice(&exp.w[2].to_be_bytes());
-    out
-}
-fn same64(a: &[u8], b: &[u8; 64]) -> bool {
-    let mut ok = a.len() == 64;
+/// does the recorded transcript equal `exp`?
+fn same_rec(out: &[u8], exp: &Pack<2>) -> bool {
     let mut x = [0u8; 16];
     let mut y = [0u8; 16];
-    macro_rules! blk {
-        ($k:expr) => {
-            if ok {
-                x.copy_from_slice(&a[16 * $k..16 * $k + 16]);
-                y.copy_from_slice(&b[16 * $k..16 * $k + 16]);
-                if u128::from_be_bytes(x) != u128::from_be_bytes(y) {
-                    ok = false;
-                }
-            }
-        };
-    }
-    blk!(0);
-    blk!(1);
-    blk!(2);
-    blk!(3);
-    ok
+    x.copy_from_slice(&out[0..16]);
+    y.copy_from_slice(&out[16..32]);
+    unsafe { !REC_OVER && !exp.over && REC_LEN == exp.len && u128::from_be_bytes(x) == exp.w[0] && u128::from_be_bytes(y) == exp.w[1] }
 }
 
 /// v4 / v6 fingerprint input: 0x99 len16 | 0x9B len32, then version, creation time, algorithm,
@@ -88,7 +71,7 @@ fn fpr_input<const V6: bool, const N: usize>() {
         packet_header: PacketHeader::new_fixed(Tag::PublicKey, 0),
         inner,
     });
-    let mut exp = Pack::<3>::default();
+    let mut exp = Pack::<2>::default();
     let tb = created.to_be_bytes();
     if V6 {
         let total = 1 + 4 + 1 + 4 + N;
@@ -110,18 +93,18 @@ fn fpr_input<const V6: bool, const N: usize>() {
     match okf(key.imprint::<RecD>()) {
         None => assert!(false, "C13: imprint failed"),
         Some(out) => {
-            assert!(same64(&out[..], &ref_out(&exp)), "C13: fingerprint hash input differs from RFC 9580 5.5.4");
+            assert!(same_rec(&out[..], &exp), "C13: fingerprint hash input differs from RFC 9580 5.5.4");
             // the serialised packet body is what the framing length announces
             assert!(key.write_len() == if V6 { 1 + 4 + 1 + 4 + N } else { 1 + 4 + 1 + N }, "C05/C13: key body length");
         }
     }
 }
-vproof!(c13_fpr_input_v4_5, 8, { fpr_input::<false, 5>() });
-vproof!(c13_fpr_input_v6_5, 8, { fpr_input::<true, 5>() });
-vproof!(c13_fpr_input_v4_0, 8, { fpr_input::<false, 0>() });
+vproof!(c13_fpr_input_v4_5, 34, { fpr_input::<false, 5>() });
+vproof!(c13_fpr_input_v6_5, 34, { fpr_input::<true, 5>() });
+vproof!(c13_fpr_input_v4_0, 34, { fpr_input::<false, 0>() });
 
 /// public subkey packets use the same framing (0x99/0x9B, never a subkey-specific octet)
-vproof!(c13_fpr_input_subkey_v4, 8, {
+vproof!(c13_fpr_input_subkey_v4, 34, {
     let body: [u8; 3] = kani::any();
     let created: u32 = kani::any();
     let body_s: &'static [u8; 3] = Box::leak(Box::new(body));
@@ -133,7 +116,7 @@ vproof!(c13_fpr_input_subkey_v4, 8, {
         public_params: PublicParams::Unknown { data: Bytes::from_static(&body_s[..]) },
     };
     let key = core::mem::ManuallyDrop::new(PublicSubkey { packet_header: PacketHeader::new_fixed(Tag::PublicSubkey, 0), inner });
-    let mut exp = Pack::<3>::default();
+    let mut exp = Pack::<2>::default();
     exp.push1(0x99);
     exp.push(&[0, 9]);
     exp.push1(4);
@@ -142,7 +125,7 @@ vproof!(c13_fpr_input_subkey_v4, 8, {
     exp.push(&body);
     match okf(key.imprint::<RecD>()) {
         None => assert!(false),
-        Some(out) => assert!(same64(&out[..], &ref_out(&exp)), "C13: subkey fingerprint input differs from RFC 9580 5.5.4"),
+        Some(out) => assert!(same_rec(&out[..], &exp), "C13: subkey fingerprint input differs from RFC 9580 5.5.4"),
     }
 });
 
